@@ -265,10 +265,22 @@ def cfg_facts(f):
                 if dom[u] >> hd & 1 and (inner is None or bin(dom[hd]).count("1") > bin(dom[inner]).count("1")):
                     inner = hd
             proper = ip is not None and ip != n and (inner is None or (ip in loops[inner] and ip != inner))
-            if not proper and len(fsc[u]) == 2:
-                a, b = fsc[u]
-                both = (reach[a] | 1 << a) & (reach[b] | 1 << b)
-                if both & hdrs:
+            if len(fsc[u]) == 2:
+                # nodes both arms reach before the merge block the detector will use (none if the
+                # merge is not recognised) are generated twice; a loop among them is lost
+                stop = ip if proper else -1
+                sets = []
+                for a in fsc[u]:
+                    seen_r = 0
+                    work = [a]
+                    while work:
+                        x = work.pop()
+                        if x == stop or seen_r >> x & 1:
+                            continue
+                        seen_r |= 1 << x
+                        work.extend(fsc[x])
+                    sets.append(seen_r)
+                if sets[0] & sets[1] & hdrs:
                     facts["unmerged_branch_before_loop"] = True
     return facts
 
